@@ -230,7 +230,20 @@ fn direct_primitives(seed: u64) -> u64 {
                 *c = [0; 64];
             }
         }
-        {
+        // every other batch hands the blocks over at an odd address ([[u8; 64]] has alignment 1)
+        let misalign = round % 3 != 0;
+        if misalign {
+            let mut m = crate::lockstep::Misaligned::new(&data, p.below(15) as usize);
+            {
+                let mut view = ShardsRefMut::new(count, len64, m.blocks_mut());
+                if is_fft {
+                    engine.fft(&mut view, pos, size, trunc, skew);
+                } else {
+                    engine.ifft(&mut view, pos, size, trunc, skew);
+                }
+            }
+            data.copy_from_slice(m.blocks());
+        } else {
             let mut view = ShardsRefMut::new(count, len64, &mut data);
             if is_fft {
                 engine.fft(&mut view, pos, size, trunc, skew);
@@ -250,7 +263,13 @@ fn direct_primitives(seed: u64) -> u64 {
             p.fill(c);
         }
         let log_m = [0u16, 65535, 65534, p.below(65536) as u16][p.below(4) as usize];
-        engine.mul(&mut x, log_m);
+        if misalign {
+            let mut m = crate::lockstep::Misaligned::new(&x, p.below(15) as usize);
+            engine.mul(m.blocks_mut(), log_m);
+            x.copy_from_slice(m.blocks());
+        } else {
+            engine.mul(&mut x, log_m);
+        }
         for c in &x {
             h.feed_bytes(c);
         }
